@@ -148,7 +148,7 @@ func (r *runner) issue(e *env, cl cell, password string) (full []string, out out
 		}
 		to := ioTimeout
 		if cl.cmd.live {
-			to = 400 * time.Millisecond
+			to = 150 * time.Millisecond // a stream never ends; whatever arrives arrives at once on loopback
 		}
 		h, err := httpDo("", e.s.Addr(), strings.Join(full, " "), auth, to)
 		if err != nil {
@@ -227,7 +227,7 @@ func (r *runner) issueText(e *env, cl cell, full []string) (outcome, error) {
 	defer c.Close()
 	to := ioTimeout
 	if cl.cmd.live || cl.cmd.name == "QUIT" {
-		to = 400 * time.Millisecond
+		to = 150 * time.Millisecond
 	}
 	if cl.cb.transport == "telnet" {
 		var q []string
